@@ -288,6 +288,14 @@ func TestC12(t *testing.T) {
 		if info.Near > 0 {
 			labels = append(labels, "near-edge")
 		}
+		for i, name := range []string{"1pct", "10pct", "25pct"} {
+			if info.EraBoth[i] > 0 {
+				labels = append(labels, "both-winners-"+name)
+			}
+			if info.EraOutside[i] > 0 {
+				labels = append(labels, "outside-"+name)
+			}
+		}
 		return modelCase{sc: sc, nt: nt, labels: append(labels, "band"), sample: map[string]interface{}{"band": info}}
 	}, func(rt *rapid.T, sc *Scenario, res *ConformResult) string {
 		st.Add("rated_heights", int64(len(res.Model.RateRows)))
